@@ -85,10 +85,14 @@ impl<T> InnerQueue<T> {
 
     pub fn try_recv(&self) -> Result<T, TryRecvError> {
         if !self.sem.try_wait() {
-            return match self.tx_ports.load(Ordering::Acquire) {
-                0 => Err(TryRecvError::Disconnected),
-                _ => Err(TryRecvError::Empty),
-            };
+            if self.tx_ports.load(Ordering::Acquire) != 0 {
+                return Err(TryRecvError::Empty);
+            }
+            // there is no sender any more, should re-check: a message may have
+            // been sent between the failed try_wait and the load above
+            if !self.sem.try_wait() {
+                return Err(TryRecvError::Disconnected);
+            }
         }
 
         match self.queue.pop() {
